@@ -58,6 +58,15 @@ def _cfi_dir(idm, d):
     return [name, [int(a) for a in args], idm.of(sym) if isinstance(sym, gtirb.Symbol) else None]
 
 
+def _val(v):
+    """aux-data values are compared as text; a str-valued enum (the assembler's DataType) is its value"""
+    import enum
+
+    if isinstance(v, enum.Enum):
+        v = v.value
+    return repr(v)
+
+
 def _aux(module, name):
     t = module.aux_data.get(name)
     return t.data if t is not None else None
@@ -146,7 +155,7 @@ def dump_ir(module, idm, cache=None):
     aux["funcNames"] = sorted([idm.of(u), idm.of(y)] for u, y in t.items())
     for key, name in (("encodings", "encodings"), ("types", "types"), ("profile", "profile"), ("sccs", "SCCs")):
         t = _aux(module, name) or {}
-        aux[key] = sorted([idm.of(k), repr(v)] for k, v in t.items())
+        aux[key] = sorted([idm.of(k), _val(v)] for k, v in t.items())
     t = _aux(module, "peSafeExceptionHandlers") or set()
     aux["peSafeSeh"] = sorted(idm.of(b) for b in t)
     aux["elfInit"] = idm.of(_aux(module, "elfDynamicInit")) if _aux(module, "elfDynamicInit") is not None else None
@@ -181,7 +190,7 @@ def dump_patch(result, idm, module):
             "symexprs": [[k, _symexpr(idm, v)] for k, v in sorted(s.symbolic_expressions.items())],
             "symexpr_sizes": sorted([k, int(v)] for k, v in s.symbolic_expression_sizes.items()),
             "alignment": sorted([idm.of(k), int(v)] for k, v in s.alignment.items()),
-            "block_types": sorted([idm.of(k), repr(v)] for k, v in s.block_types.items()),
+            "block_types": sorted([idm.of(k), _val(v)] for k, v in s.block_types.items()),
         }
 
     text = result.text_section
